@@ -91,8 +91,7 @@ func H_C07_file() {
 }
 
 func H_C07_file_plain() {
-	c := vndString("c", 3)
-	vAssume(vNoByte(c, '\n'))
+	c := vSrcText("c", 3)
 	vAssume(vNoByte(c, '@'))
 	structs := []vStructSrc{{name: "A", fields: []vField{
 		{name: "X", typ: "string", hasTag: true, tag: "json:\"x\"", comment: "// " + c},
@@ -103,5 +102,48 @@ func H_C07_file_plain() {
 	vAssert(err == nil && out1 == src, "C07 plain: a file without @tag annotations is unchanged")
 	out2, err := vRunInjector("p.go", out1, f)
 	vAssert(err == nil && out2 == src, "C07 plain: and stays unchanged")
+	vReach("end")
+}
+
+// the comment may name a key twice: the merge must still reach a fixed point after the first run
+func H_C07_merge_dupkey() {
+	k := vKey("k", 2)
+	a, b := vTagVal("a", 2, true), vTagVal("b", 2, true)
+	injText := k + ":\"" + a + "\" " + k + ":\"" + b + "\""
+	old := ""
+	switch vndChoice("old", 3) {
+	case 1:
+		old = "json:\"x\""
+	case 2:
+		old = k + ":\"" + vTagVal("o", 1, true) + "\""
+	}
+	m1 := newTagItems(old).override(newTagItems(injText)).format()
+	m2 := newTagItems(m1).override(newTagItems(injText)).format()
+	vAssert(m2 == m1, "C07 merge: a comment that repeats a key still reaches a fixed point after one run")
+	m3 := newTagItems(m2).override(newTagItems(injText)).format()
+	vAssert(m3 == m2, "C07 merge: and stays there")
+	vReach("end")
+}
+
+// an override that shortens an earlier literal while later fields are annotated too
+func H_C07_file_shrink() {
+	v := vTagVal("v", 1, true)
+	mk := func(x, y, z string) []vStructSrc {
+		return []vStructSrc{{name: "A", fields: []vField{
+			{name: "X", typ: "string", hasTag: true, tag: x, comment: "// @tag json:\"" + v + "\""},
+			{name: "Y", typ: "int", hasTag: true, tag: y, comment: "// @tag valid:\"required\""},
+			{name: "Z", typ: "int", hasTag: true, tag: z, comment: "// @tag valid:\"n\" json:\"z\""},
+		}}}
+	}
+	src, f := vBuildSource("", mk("json:\"name,omitempty\"", "json:\"y\"", "json:\"zzzzzzzz\" valid:\"old\""), "")
+	out1, err := vRunInjector("k.go", src, f)
+	vAssert(err == nil, "C07 shrink: first run succeeds")
+	src2, f2 := vBuildSource("", mk("json:\""+v+"\"", "json:\"y\" valid:\"required\"", "json:\"z\" valid:\"n\""), "")
+	vAssert(out1 == src2, "C07 shrink: first run merges every annotated field")
+	if out1 != src2 {
+		return
+	}
+	out2, err := vRunInjector("k.go", src2, f2)
+	vAssert(err == nil && out2 == out1, "C07 shrink: second run leaves the file unchanged")
 	vReach("end")
 }
